@@ -10,7 +10,9 @@ import sys
 
 from .extract import VERIF
 
-WDIR = os.path.join(VERIF, 'witness')
+# VERIF_WITNESS_DIR: an isolated copy of the witness crate whose path dependency points at a scratch copy of the
+# repository (tools/try_seed_scratch.sh); default = /verif/witness, built against /repo's working tree
+WDIR = os.environ.get('VERIF_WITNESS_DIR') or os.path.join(VERIF, 'witness')
 BIN = os.path.join(WDIR, 'target', 'debug', 'witness')
 
 # Registry: units/<unit>.witness.json = [{"label_re": "...", "kind": "<native witness kind>"} |
